@@ -10,6 +10,7 @@ import (
 	"go/token"
 	"go/types"
 	"sort"
+	"strconv"
 	"strings"
 )
 
@@ -324,7 +325,8 @@ func (w *world) respSpec(pi pduInfo, getSeq string) string {
 					isSeq = true
 				}
 			}
-		} else if p, ok := w.fieldPath(ve.e, ve.x); ok && p == getSeq && ve.e == e {
+		} else if p, ok := w.fieldPath(ve.e, ve.x); ok && ve.e == e && (p == getSeq || (strings.HasPrefix(getSeq, p+".") && p == k)) {
+			// the field GetSequenceID returns, or the whole sequence array it indexes copied to the same field
 			isSeq = true
 		}
 		if isSeq && (last == "SequenceID" || last == "Sequence" || last == "2") {
@@ -335,7 +337,61 @@ func (w *world) respSpec(pi pduInfo, getSeq string) string {
 	if rcmd == "" || cmdField == "" {
 		return unk
 	}
+	w.lastSeqWords = w.seqWords(e, fields, getSeq)
 	return fmt.Sprintf(".some %s %s %s %s %v", q(rname), rcmd, q(cmdField), q(seqField), seqOK)
+}
+
+// seqWords: for a header whose sequence number is an array of words (SGIP: node id, time, serial), where each
+// word of the response comes from: (i, some j) = word j of the request's own header sequence, (i, none) = anything else.
+func (w *world) seqWords(e *env, fields map[string]valExpr, getSeq string) string {
+	// the request's sequence array: the field GetSequenceID indexes, e.g. "Header.Sequence.2" → "Header.Sequence"
+	k := strings.LastIndexByte(getSeq, '.')
+	if k < 0 {
+		return "[]"
+	}
+	if _, err := strconv.Atoi(getSeq[k+1:]); err != nil {
+		return "[]"
+	}
+	arr := getSeq[:k]
+	serial := getSeq[k+1:]
+	var keys []string
+	for f := range fields {
+		keys = append(keys, f)
+	}
+	sort.Strings(keys)
+	var rows []string
+	for _, f := range keys {
+		ve := fields[f]
+		if ve.e != e && f != arr {
+			// the value is an expression of an inlined constructor's own scope (e.g. Timestamp(time.Now()))
+			if strings.HasPrefix(f, arr+".") {
+				rows = append(rows, fmt.Sprintf("(%s, none)", f[len(arr)+1:]))
+			}
+			continue
+		}
+		if f == arr { // Sequence: p.Header.Sequence — the whole array
+			if p, ok := w.fieldPath(ve.e, ve.x); ok && p == arr && ve.e == e {
+				return "[(0, some 0), (1, some 1), (2, some 2)]"
+			}
+			return "[(0, none), (1, none), (2, none)]"
+		}
+		if !strings.HasPrefix(f, arr+".") {
+			continue
+		}
+		i := f[len(arr)+1:]
+		src := "none"
+		if c, ok := unparen(ve.x).(*ast.CallExpr); ok && len(c.Args) == 0 {
+			if fn, r := w.callee(ve.e, c); fn != nil && fn.Name() == "GetSequenceID" && r != nil {
+				if p, ok := w.fieldPath(ve.e, r); ok && p == "" {
+					src = "some " + serial
+				}
+			}
+		} else if p, ok := w.fieldPath(ve.e, ve.x); ok && strings.HasPrefix(p, arr+".") {
+			src = "some " + p[len(arr)+1:]
+		}
+		rows = append(rows, fmt.Sprintf("(%s, %s)", i, src))
+	}
+	return "[" + strings.Join(rows, ", ") + "]"
 }
 
 func hasMethods(named *types.Named, names ...string) bool {
@@ -610,9 +666,14 @@ func (w *world) genTables() string {
 			gs = w.seqGet(pi.named)
 			ss = w.seqSet(pi.named)
 			cmd = w.cmdSpec(pi.named)
+			w.lastSeqWords = ""
 			resp = w.respSpec(pi, gs)
 		}
-		metas = append(metas, fmt.Sprintf("{ name := %s, pkg := %s, isPdu := %v, cmd := %s, resp := %s, getSeq := %s, setSeq := %s }", q(pi.name), q(pi.pkg.Types.Name()), isPdu, cmd, resp, q(gs), q(ss)))
+		words := "[]"
+		if isPdu && w.lastSeqWords != "" {
+			words = w.lastSeqWords
+		}
+		metas = append(metas, fmt.Sprintf("{ name := %s, pkg := %s, isPdu := %v, cmd := %s, resp := %s, getSeq := %s, setSeq := %s, seqWords := %s }", q(pi.name), q(pi.pkg.Types.Name()), isPdu, cmd, resp, q(gs), q(ss), words))
 		_ = 0
 	}
 	fmt.Fprintf(&sb, "def metas : List PduMeta := %s\n\n", leanList(metas, "  "))
